@@ -5,6 +5,7 @@ import json
 import _checker_common as K
 import _zoo
 import _call_common as C
+import _call_reentrant as R
 
 RULE = ('exhaustive product of the annotation zoo (every public name of typing and collections.abc, bare and subscripted with 1-3 arguments, '
         'PEP 585 aliases of all standard containers, user Generic / Protocol / TypedDict / Enum classes, TypeVars, ParamSpec, special forms, strings '
@@ -40,6 +41,7 @@ def cases(rng, tier):
     out += C.build_cases(rng, n, calls_per=3, style='kw', tag='c08a')
     out += C.build_cases(rng, n // 3, calls_per=2, profile='incomplete', style='kw', tag='c08b')
     out += C.scenario_cases(rng, n // 8, tag='c08sc')
+    out += R.reentrant_cases(rng, n // 6, tag='c08re')
     out += zoo_call_cases(rng, tier)
     return out
 
@@ -109,7 +111,7 @@ def run_impl(cases):
     out = []
     for c in cases:
         if c['m'] == 'calllayer':
-            out.extend(C.run_impl_calls([c])); continue
+            out.extend(R.run_impl([c])); continue
         z = c['x'].get('zoo')
         if z is not None:
             if z[0] >= len(anns) or z[1] >= len(vals):
